@@ -9,6 +9,7 @@ import (
 	"strings"
 	"testing"
 
+	"github.com/ericlagergren/decimal"
 	"pgregory.net/rapid"
 
 	"verif/internal/h"
@@ -120,6 +121,29 @@ func checkArith(c arithCase) string {
 	}
 	if got.Cmp(want) != 0 {
 		return fmt.Sprintf("%s = %s, want exactly %s", f, obs.Show(arr[0]), ref.DecString(want))
+	}
+	// the number a host function receives as *decimal.Big (and hands back) is the same number
+	if arithLocalCount%3 == 1 {
+		var seen []*decimal.Big
+		probe := func(n *decimal.Big) (*decimal.Big, error) {
+			seen = append(seen, n)
+			return n, nil
+		}
+		pf := "[probe(" + c.formula() + "), max(" + c.formula() + "), 0 + abs(" + c.formula() + ") * 1]"
+		pout := obs.EvalText(pf, map[string]interface{}{"probe": probe})
+		parr, isArr := pout.Val.([]interface{})
+		if pout.Panic != nil || pout.Err != nil || !isArr || len(parr) != 3 || len(seen) == 0 {
+			return fmt.Sprintf("%s -> %s (host function invoked %d times)", pf, pout, len(seen))
+		}
+		if sr, ok := obs.Rat(seen[0]); !ok || sr.Cmp(want) != 0 {
+			return fmt.Sprintf("the host function in %s received %s, want exactly %s", pf, obs.Show(seen[0]), ref.DecString(want))
+		}
+		wabs := new(big.Rat).Abs(want)
+		for i, w := range []*big.Rat{want, want, wabs} {
+			if g, ok := obs.Rat(parr[i]); !ok || g.Cmp(w) != 0 {
+				return fmt.Sprintf("element %d of %s = %s, want exactly %s", i, pf, obs.Show(parr[i]), ref.DecString(w))
+			}
+		}
 	}
 	// the same computation with every intermediate value held in a local: a number keeps all its digits
 	// when it is bound to a `$` name and read back
